@@ -16,6 +16,8 @@ if ! git -C "$base/repo" apply "$patch"; then echo "PATCH DOES NOT APPLY"; exit 
 rsync -a --exclude 'harness/target*' --exclude '.scratch' --exclude 'replay' --exclude '.git' /verif/ "$base/verif/"
 sed -i "s#path = \"/repo/#path = \"$base/repo/#" "$base/verif/harness/Cargo.toml"
 # reuse a shared target dir for mutation builds to avoid cold builds (serialised by cargo's lock)
+# keep the shared scratch target small (it accumulates one set of artifacts per patched path)
+if [ -d /tmp/mut/_target ] && [ "$(du -s /tmp/mut/_target 2>/dev/null | cut -f1)" -gt 15000000 ]; then rm -rf /tmp/mut/_target; fi
 export CARGO_TARGET_DIR_OVERRIDE=/tmp/mut/_target
 export KOTO_REPO="$base/repo"
 rc_all=0
